@@ -233,6 +233,22 @@ func runC17Tamper(x *mc.X) {
 				rejected++
 			}
 		}
+		// keys that differ from the writing key in one byte only (they share almost all of their text)
+		for _, at := range []int{0, keyLen / 2, keyLen - 1} {
+			kb := bytes.Repeat([]byte{0x11}, keyLen)
+			kb[at] ^= 0x01
+			other, err := fscache.Open("app", fscache.WithBaseDir(dir), fscache.WithEncryption(base64.URLEncoding.EncodeToString(kb)), fscache.WithUpdateMTime(mtime))
+			if err != nil {
+				x.Failf("open with another valid key failed", "%v", err)
+				return
+			}
+			mutants++
+			if got, err := other.Get(key); err == nil {
+				x.Failf("wrong key yields data", "a key that differs from the writing key in byte %d only returned %d bytes", at, len(got))
+				return
+			}
+			rejected++
+		}
 		// and without any key the bytes are not the value
 		plain, _ := fscache.Open("app", fscache.WithBaseDir(dir))
 		if got, err := plain.Get(key); err == nil && bytes.Equal(got, val) {
@@ -275,6 +291,9 @@ func c17KeySpecs() []c17KeySpec {
 		{"empty", "", false}, {"bad-base64", "!!!not-base64!!!", false}, {"std-alphabet", std, false},
 		{"blank-space", " ", false}, {"blank-newline", "\n", false}, {"blank-tab-crlf", "\t\r\n", false},
 		{"10-bytes", c17Key(10, 0x24), false}, {"33-bytes", c17Key(33, 0x25), false}, {"unpadded32", strings.TrimRight(c17Key(32, 0x26), "="), false},
+		// malformed keys that BEGIN like a valid one: a decoder that stops at the first illegal byte must not leave a "usable" prefix behind
+		{"valid32+junk", c17Key(32, 0x27) + "junk", false}, {"valid16+x", c17Key(16, 0x28) + "x", false}, {"valid24+valid24", c17Key(24, 0x29) + c17Key(24, 0x29), false},
+		{"32-legal-chars-then-illegal", c17Key(32, 0x2a)[:32] + "!!!!!!!!!!!=", false}, {"illegal-at-offset-33", c17Key(32, 0x2b)[:33] + "*" + c17Key(32, 0x2b)[34:], false},
 	}
 }
 
